@@ -1,0 +1,30 @@
+//go:build verif
+// +build verif
+
+// Package vhook provides verification hook points (enabled by the "verif" build tag).
+package vhook
+
+import "sync/atomic"
+
+// Enabled reports whether verification hooks are compiled in.
+const Enabled = true
+
+// Handler receives every hook call; it may block (the harness uses that as a scheduler gate).
+type Handler func(point string, args ...interface{})
+
+var handler atomic.Value // of Handler
+
+// Set installs the handler (nil removes it).
+func Set(h Handler) {
+	if h == nil {
+		h = func(string, ...interface{}) {}
+	}
+	handler.Store(h)
+}
+
+// At calls the installed handler, if any.
+func At(point string, args ...interface{}) {
+	if h, ok := handler.Load().(Handler); ok && h != nil {
+		h(point, args...)
+	}
+}
